@@ -316,3 +316,8 @@ b("C16-b11", "C16", REFS, "        prefix = refname + b\"/\"\n        for packed
 b("C16-b12", "C16", REFS, "        filename = self.refpath(name)\n        self._check_no_packed_conflict(name, filename)\n", "        filename = self.refpath(name)\n", "R16.15")
 n("C16-n9", "C16", REFS, "        prefix = refname + b\"/\"\n        for packed_name in packed_refs:\n            if packed_name.startswith(prefix):\n                raise IsADirectoryError(filename)\n",
   "        prefix = refname + b\"/\"\n        if any(packed_name.startswith(prefix) for packed_name in packed_refs):\n            raise IsADirectoryError(filename)\n")
+GC_PY = "dulwich/gc.py"
+b("C10-b9", "C10", GC_PY, "    for sha in _other_worktree_roots(refs_container):\n        if sha and sha not in reachable:\n            pending.append(sha)\n            reachable.add(sha)\n", "", "R10.13")
+b("C10-b10", "C10", GC_PY, "    git_dirs = [common_dir]\n", "    git_dirs = []\n", "R10.13")
+b("C10-b11", "C10", GC_PY, "    for sha in _other_worktree_roots(refs_container):\n        if sha and sha not in reachable:\n            pending.append(sha)\n            reachable.add(sha)\n",
+  "    for sha in _other_worktree_roots(refs_container):\n        if sha and sha not in reachable:\n            reachable.discard(sha)\n", "R10.13")
